@@ -3,7 +3,7 @@
    IntegerHelper_signed_to_c2 / IntegerHelper_c2_to_signed / signExtend are REGENERATED from py4hw/helper.py on every
    run (Gen/Helpers.v); everything else is the hand-written model (Model/HelperInt.v, Model/FPNum.v, Model/FPHelper.v)
    tied to the code by the correspondence sweep of py/props/c12.py. *)
-From V Require Import Base.Bits Gen.Helpers Spec.C12 Model.HelperInt Proofs.C12.Int.
+From V Require Import Base.Bits Gen.Helpers Spec.C12 Model.HelperInt Model.FPNum Model.FPHelper Proofs.C12.Int Proofs.C12.FPNum Proofs.C12.Decode Proofs.C12.Convert Proofs.C12.FPH Proofs.C12.OfFloat Proofs.C12.Encode.
 Open Scope Z_scope.
 
 (* ---------------------------------------------------------------- two's complement (regenerated code) *)
@@ -94,6 +94,173 @@ Theorem C12_fph_unpack : forall ew mw v, 0 <= ew -> 0 <= mw -> 0 <= v < 2 ^ (1 +
   FPH_unpack (std_layout ew mw) v = FPNum_unpack (std_layout ew mw) v.
 Proof. exact fph_unpack_eq. Qed.
 
+(* ---------------------------------------------------------------- FPNum: (s, e, m, p) denotes s * 2^e * m / p *)
+(* wf x: sign in {1,-1} and, for a finite x, m >= 0 and p a power of two (the asserts of add/compare need equal p after
+   alignment; FPNum(1,0,3,3).add(FPNum(1,0,1,1)) fails its assert).  Closed under add/sub/mul (second conjuncts). *)
+Example C12_wf_ex : wf (FPNum_from_ieee754 fmt_sp 0x3F8CCCCD) /\ wf (FPNum_of_finite true 3602879701896397 55) /\ wf (FPNum_of_inf false).
+Proof.
+  split; [apply decode_sp|]. split; (split; [vm_compute; auto|]); cbn; intros; try discriminate.
+  split; [lia | exists 51; split; [lia | reflexivity]].
+Qed.
+
+(* the constructor's normalisation loops keep the denoted rational, never run out of the model's fuel (the loop condition is
+   false on exit: p <= m < 2p for m > 0) and keep p a power of two *)
+Theorem C12_fpnum_normalise : forall x, 0 <= f_m x /\ 0 < f_p x ->
+  let y := adjust_semp x in
+  f_s y = f_s x /\ f_inf y = f_inf x /\ f_nan y = f_nan x /\ (0 <= f_m y /\ 0 < f_p y) /\ (fval y == fval x)%Q /\
+  (pow2 (f_p x) -> pow2 (f_p y)) /\ (0 < f_m x -> f_p y <= f_m y < 2 * f_p y) /\ (f_m x = 0 -> f_m y = 0).
+Proof. exact adjust_semp_spec. Qed.
+
+(* add / sub are exact on the extended rationals (infinities as in IEEE 754: inf - inf = NaN), for ALL well-formed operands *)
+Theorem C12_fpnum_add_exact : forall a b, wf a -> wf b ->
+  xeq (xval (FPNum_add a b)) (xadd (xval a) (xval b)) /\ wf (FPNum_add a b).
+Proof. exact add_exact. Qed.
+Theorem C12_fpnum_sub_exact : forall a b, wf a -> wf b ->
+  xeq (xval (FPNum_sub a b)) (xsub (xval a) (xval b)) /\ wf (FPNum_sub a b).
+Proof. exact sub_exact. Qed.
+(* mul is exact on finite operands (with an infinite operand the code returns an infinity even for inf * 0, see C12_fpnum_mul_special) *)
+Theorem C12_fpnum_mul_exact : forall a b, wf a -> wf b -> f_inf a = false -> f_nan a = false -> f_inf b = false -> f_nan b = false ->
+  let r := FPNum_mul a b in wf r /\ f_inf r = false /\ f_nan r = false /\ (fval r == fval a * fval b)%Q.
+Proof. exact mul_exact. Qed.
+Theorem C12_fpnum_mul_special : forall a b, sign_ok a ->
+  (f_nan a || f_nan b = true -> xval (FPNum_mul a b) = XNaN) /\
+  (f_nan a || f_nan b = false -> f_inf a || f_inf b = true -> xval (FPNum_mul a b) = XInf (f_s a * f_s b <? 0)).
+Proof. exact mul_special. Qed.
+Example C12_fpnum_arith_ex :          (* 0xC49A6333 + 0x3F8CCCCD (Test_Helper) and their product, exact *)
+  let a := FPNum_from_ieee754 fmt_sp 0xC49A6333 in let b := FPNum_from_ieee754 fmt_sp 0x3F8CCCCD in
+  xeqb (xval (FPNum_add a b)) (XFin (-(10351542067 # 8388608))) = true /\
+  xeqb (xval (FPNum_mul a b)) (XFin (-(10117939 * 9227469 # 68719476736))) = true.
+Proof. vm_compute. split; reflexivity. Qed.
+
+(* compare orders finite numbers like the rationals they denote, unless both are zero with different signs *)
+Theorem C12_fpnum_compare_exact : forall a b, wf a -> wf b ->
+  f_inf a = false -> f_nan a = false -> f_inf b = false -> f_nan b = false ->
+  (f_s a = f_s b \/ 0 < f_m a \/ 0 < f_m b) ->
+  FPNum_compare a b = cmpZ (Qcompare (fval a) (fval b)).
+Proof. exact compare_exact. Qed.
+Example C12_fpnum_compare_ex :
+  FPNum_compare (FPNum_from_ieee754 fmt_dp 0x4005BF0A89F1B0DD) (FPNum_from_ieee754 fmt_dp 0x400921FB53C8D4F1) = -1.
+Proof. vm_compute. reflexivity. Qed.
+Theorem C12_fpnum_compare_signed_zero_refuted :      (* finding C12-CMP-ZERO: FPNum(-0.0).compare(FPNum(0.0)) = -1 *)
+  let a := mkfp (-1) (-1) 0 1 false false in let b := mkfp 1 (-1) 0 1 false false in
+  FPNum_compare a b = -1 /\ FPNum_compare b a = 1 /\ Qcompare (fval a) (fval b) = Eq.
+Proof. exact compare_signed_zero. Qed.
+Theorem C12_fpnum_compare_infinities_refuted :       (* finding C12-CMP-INF: compare(-inf, +inf) = 1 *)
+  let ninf := mkfp (-1) 0 0 0 true false in let pinf := mkfp 1 0 0 0 true false in
+  FPNum_compare ninf pinf = 1 /\ FPNum_compare pinf ninf = 1.
+Proof. exact compare_inf_inf. Qed.
+Theorem C12_fpnum_compare_inf_finite : forall a b, f_nan a = false -> f_nan b = false ->
+  (f_inf a = true -> f_inf b = false -> FPNum_compare a b = f_s a) /\
+  (f_inf a = false -> f_inf b = true -> FPNum_compare a b = - f_s b).
+Proof. exact compare_inf_fin. Qed.
+
+(* ---------------------------------------------------------------- FPNum(v, fmt) denotes the IEEE-754 value of the pattern *)
+(* every integer v (only its low 1+ew+mw bits matter): zeros, subnormals, normals, infinities, NaNs; sign of zero included *)
+Theorem C12_fpnum_decode_sp : forall v, let x := FPNum_from_ieee754 fmt_sp v in
+  xeq (xval x) (ieee_value 8 23 v) /\ (f_s x <? 0) = ieee_neg 8 23 v /\ wf x.
+Proof. exact decode_sp. Qed.
+Theorem C12_fpnum_decode_dp : forall v, let x := FPNum_from_ieee754 fmt_dp v in
+  xeq (xval x) (ieee_value 11 52 v) /\ (f_s x <? 0) = ieee_neg 11 52 v /\ wf x.
+Proof. exact decode_dp. Qed.
+(* any format whose literals are the standard ones and whose subnormal exponent is 1 - bias *)
+Theorem C12_fpnum_decode_any_format : forall ew mw sube nanm, 1 <= ew -> 0 <= mw -> forall v,
+  (sube = 1 - ieee_bias ew \/ fld_e ew mw v <> 0 \/ fld_m ew mw v = 0) ->
+  let x := FPNum_from_ieee754 (fmt_std ew mw sube nanm) v in
+  xeq (xval x) (ieee_value ew mw v) /\ (f_s x <? 0) = ieee_neg ew mw v /\ wf x.
+Proof. exact decode_exact. Qed.
+(* half precision: helper.py uses -16 for subnormals (finding #21), so only the other patterns are exact ... *)
+Theorem C12_fpnum_decode_hp_partial : forall v, fld_e 5 10 v <> 0 \/ fld_m 5 10 v = 0 ->
+  let x := FPNum_from_ieee754 fmt_hp v in
+  xeq (xval x) (ieee_value 5 10 v) /\ (f_s x <? 0) = ieee_neg 5 10 v /\ wf x.
+Proof. exact decode_hp_partial. Qed.
+(* ... every subnormal half pattern decodes to exactly a quarter of its value ... *)
+Theorem C12_fpnum_decode_hp_subnormal_refuted : forall v, fld_e 5 10 v = 0 ->
+  let x := FPNum_from_ieee754 fmt_hp v in
+  f_inf x = false /\ f_nan x = false /\
+  (fval x == (1 # 4) * (sgnq (fld_s 5 10 v =? 1) * ieee_mag 5 10 0 (fld_m 5 10 v)))%Q.
+Proof. exact decode_hp_subnormal_quarter. Qed.
+Example C12_fpnum_decode_hp_witness :
+  xeqb (xval (FPNum_from_ieee754 fmt_hp 1)) (XFin (1 # 67108864)) = true /\ xeqb (ieee_value 5 10 1) (XFin (1 # 16777216)) = true.
+Proof. exact decode_hp_witness. Qed.
+(* ... and with -14 in that place all 2^16 patterns are exact (the model instance the check selects once /repo is repaired) *)
+Theorem C12_fpnum_decode_hp_if_fixed : forall v, let x := FPNum_from_ieee754 (fmt_hp_with (-14)) v in
+  xeq (xval x) (ieee_value 5 10 v) /\ (f_s x <? 0) = ieee_neg 5 10 v /\ wf x.
+Proof. exact decode_hp_fixed. Qed.
+
+(* ---------------------------------------------------------------- FPNum(v, fmt).convert(fmt) = v : every non-NaN pattern *)
+(* all 2^32 - 2^24 + 2 resp. 2^64 - 2^53 + 2 non-NaN patterns, by reasoning on the normal form (no enumeration) *)
+Theorem C12_fpnum_round_trip_sp : forall v, 0 <= v < 2 ^ 32 -> (fld_e 8 23 v = 255 -> fld_m 8 23 v = 0) ->
+  FPNum_convert fmt_sp (FPNum_from_ieee754 fmt_sp v) = v.
+Proof. exact round_trip_sp. Qed.
+Theorem C12_fpnum_round_trip_dp : forall v, 0 <= v < 2 ^ 64 -> (fld_e 11 52 v = 2047 -> fld_m 11 52 v = 0) ->
+  FPNum_convert fmt_dp (FPNum_from_ieee754 fmt_dp v) = v.
+Proof. exact round_trip_dp. Qed.
+Example C12_fpnum_round_trip_ex :      (* smallest subnormal, largest finite, -0, +inf *)
+  map (fun v => FPNum_convert fmt_dp (FPNum_from_ieee754 fmt_dp v)) [1; 0x7FEFFFFFFFFFFFFF; 0x8000000000000000; 0x7FF0000000000000]
+  = [1; 0x7FEFFFFFFFFFFFFF; 0x8000000000000000; 0x7FF0000000000000].
+Proof. vm_compute. reflexivity. Qed.
+(* any standard format; NaN patterns come back as the format's quiet NaN *)
+Theorem C12_fpnum_round_trip_any_format : forall ew mw sube nanm, 2 <= ew -> 0 <= mw -> forall v,
+  0 <= v < 2 ^ (1 + ew + mw) -> (fld_e ew mw v = 2 ^ ew - 1 -> fld_m ew mw v = 0) ->
+  (sube = 1 - (2 ^ (ew - 1) - 1) \/ fld_e ew mw v <> 0 \/ fld_m ew mw v = 0) ->
+  FPNum_convert (fmt_std ew mw sube nanm) (FPNum_from_ieee754 (fmt_std ew mw sube nanm) v) = v.
+Proof. exact round_trip. Qed.
+Theorem C12_fpnum_round_trip_nan : forall ew mw sube nanm, 2 <= ew -> 0 <= mw -> forall v,
+  fld_e ew mw v = 2 ^ ew - 1 -> fld_m ew mw v <> 0 ->
+  FPNum_convert (fmt_std ew mw sube nanm) (FPNum_from_ieee754 (fmt_std ew mw sube nanm) v) = FPNum_pack (std_layout ew mw) 0 (2 ^ ew - 1) nanm.
+Proof. exact round_trip_nan. Qed.
+(* half precision today (finding #21): all patterns except the non-zero subnormals ... *)
+Theorem C12_fpnum_round_trip_hp_partial : forall v, 0 <= v < 2 ^ 16 -> (fld_e 5 10 v = 31 -> fld_m 5 10 v = 0) ->
+  (fld_e 5 10 v <> 0 \/ fld_m 5 10 v = 0) ->
+  FPNum_convert fmt_hp (FPNum_from_ieee754 fmt_hp v) = v.
+Proof. exact round_trip_hp_partial. Qed.
+Theorem C12_fpnum_round_trip_hp_refuted :
+  FPNum_convert fmt_hp (FPNum_from_ieee754 fmt_hp 1) = 0 /\ FPNum_convert fmt_hp (FPNum_from_ieee754 fmt_hp 1023) = 255.
+Proof. exact round_trip_hp_witness. Qed.
+Theorem C12_fpnum_round_trip_hp_if_fixed : forall v, 0 <= v < 2 ^ 16 -> (fld_e 5 10 v = 31 -> fld_m 5 10 v = 0) ->
+  FPNum_convert (fmt_hp_with (-14)) (FPNum_from_ieee754 (fmt_hp_with (-14)) v) = v.
+Proof. exact round_trip_hp_fixed. Qed.
+
+(* ---------------------------------------------------------------- FloatingPointHelper.ieee754_to_sp / ieee754_to_dp *)
+(* the float returned (model over dyadic rationals, float glue tied by correspondence only) is the IEEE value of the pattern *)
+Theorem C12_fph_decode_sp_partial : forall v, 0 <= v < 2 ^ 32 ->
+  let x := FPH_from_ieee754 fph_sp v in xeq (pf_value x) (ieee_value 8 23 v) /\ (x = PNaN \/ pf_neg x = ieee_neg 8 23 v).
+Proof. exact fph_decode_sp. Qed.
+Theorem C12_fph_decode_dp_partial : forall v, 0 <= v < 2 ^ 64 ->
+  let x := FPH_from_ieee754 fph_dp v in xeq (pf_value x) (ieee_value 11 52 v) /\ (x = PNaN \/ pf_neg x = ieee_neg 11 52 v).
+Proof. exact fph_decode_dp. Qed.
+Example C12_fph_decode_ex : FPH_from_ieee754 fph_sp 0x80000001 = PFin true 1 149 /\ FPH_from_ieee754 fph_dp 0x8000000000000000 = PFin true 0 0.
+Proof. vm_compute. split; reflexivity. Qed.
+
+(* sp/dp_to_ieee754(ieee754_to_sp/dp(v)) = v for every non-NaN pattern (same model over dyadic rationals; round() as
+   round-half-even of the exact value).  Single precision loses the sign of -0.0 (finding #16), hence v <> 2^31 *)
+Theorem C12_fph_encode_decode_dp_partial : forall v, 0 <= v < 2 ^ 64 -> (fld_e 11 52 v = 2047 -> fld_m 11 52 v = 0) ->
+  FPH_to_ieee754 fph_dp (FPH_from_ieee754 fph_dp v) = v.
+Proof. exact encode_decode_dp. Qed.
+Theorem C12_fph_encode_decode_sp_partial : forall v, 0 <= v < 2 ^ 32 -> (fld_e 8 23 v = 255 -> fld_m 8 23 v = 0) -> v <> 2 ^ 31 ->
+  FPH_to_ieee754 fph_sp (FPH_from_ieee754 fph_sp v) = v.
+Proof. exact encode_decode_sp. Qed.
+Theorem C12_fph_sp_neg_zero_refuted :
+  FPH_to_ieee754 fph_sp (PFin true 0 0) = 0 /\ FPH_to_ieee754 fph_dp (PFin true 0 0) = 2 ^ 63 /\ FPH_from_ieee754 fph_sp (2 ^ 31) = PFin true 0 0.
+Proof. exact encode_sp_neg_zero. Qed.
+Theorem C12_fph_encode_decode_sp_if_fixed_partial : forall v, 0 <= v < 2 ^ 32 -> (fld_e 8 23 v = 255 -> fld_m 8 23 v = 0) ->
+  FPH_to_ieee754 (fph_sp_with true) (FPH_from_ieee754 (fph_sp_with true) v) = v.
+Proof. exact encode_decode_sp_fixed. Qed.
+Example C12_fph_encode_ex :       (* ties round to even; overflow to infinity; below half the smallest subnormal to zero *)
+  map (FPH_to_ieee754 fph_sp) [PFin false 16777217 24; PFin false 16777219 24; PFin false 1 150; PFin false 3 151; PFin false (2 ^ 128) 0; PFin true 33554431 (-103)]
+  = [0x3F800000; 0x3F800002; 0; 1; 0x7F800000; 0xFF800000].
+Proof. vm_compute. reflexivity. Qed.
+
+(* ---------------------------------------------------------------- FPNum(float) *)
+(* closed-form model of convert_float_to_semp / adjust_sem on the finite double (-1)^neg * n / 2^d (float glue: tied by
+   correspondence only): the resulting number is well formed and denotes the float exactly, sign of zero included *)
+Theorem C12_fpnum_of_float_partial : forall neg n d, 0 <= n ->
+  let x := FPNum_of_finite neg n d in
+  wf x /\ f_inf x = false /\ f_nan x = false /\ (f_s x <? 0) = neg /\ xeq (xval x) (pf_value (PFin neg n d)).
+Proof. exact of_finite_exact. Qed.
+Example C12_fpnum_of_float_ex : FPNum_of_finite false 3602879701896397 55 = mkfp 1 (-4) 3602879701896397 2251799813685248 false false.   (* FPNum(0.1) *)
+Proof. vm_compute. reflexivity. Qed.
+
 Print Assumptions C12_c2_round_trip.
 Print Assumptions C12_c2_converse.
 Print Assumptions C12_signed_to_c2_spec.
@@ -112,3 +279,32 @@ Print Assumptions C12_unpack_pack_any.
 Print Assumptions C12_pack_unpack.
 Print Assumptions C12_unpack_fields.
 Print Assumptions C12_fph_unpack.
+Print Assumptions C12_fpnum_normalise.
+Print Assumptions C12_fpnum_add_exact.
+Print Assumptions C12_fpnum_sub_exact.
+Print Assumptions C12_fpnum_mul_exact.
+Print Assumptions C12_fpnum_mul_special.
+Print Assumptions C12_fpnum_compare_exact.
+Print Assumptions C12_fpnum_compare_signed_zero_refuted.
+Print Assumptions C12_fpnum_compare_infinities_refuted.
+Print Assumptions C12_fpnum_compare_inf_finite.
+Print Assumptions C12_fpnum_decode_sp.
+Print Assumptions C12_fpnum_decode_dp.
+Print Assumptions C12_fpnum_decode_any_format.
+Print Assumptions C12_fpnum_decode_hp_partial.
+Print Assumptions C12_fpnum_decode_hp_subnormal_refuted.
+Print Assumptions C12_fpnum_decode_hp_if_fixed.
+Print Assumptions C12_fpnum_round_trip_sp.
+Print Assumptions C12_fpnum_round_trip_dp.
+Print Assumptions C12_fpnum_round_trip_any_format.
+Print Assumptions C12_fpnum_round_trip_nan.
+Print Assumptions C12_fpnum_round_trip_hp_partial.
+Print Assumptions C12_fpnum_round_trip_hp_refuted.
+Print Assumptions C12_fpnum_round_trip_hp_if_fixed.
+Print Assumptions C12_fph_decode_sp_partial.
+Print Assumptions C12_fph_decode_dp_partial.
+Print Assumptions C12_fpnum_of_float_partial.
+Print Assumptions C12_fph_encode_decode_dp_partial.
+Print Assumptions C12_fph_encode_decode_sp_partial.
+Print Assumptions C12_fph_sp_neg_zero_refuted.
+Print Assumptions C12_fph_encode_decode_sp_if_fixed_partial.
